@@ -198,6 +198,17 @@ func verifC10NewStore(kinds []int, n int) {
 			assert("value-really-served", and(cs.Secret.Version == sv.Version, bytesEq(cs.Secret.Value, sv.Value)))
 		}
 	}
+	// C19 across restarts: what the cache supplied but nobody declared now is undeclared
+	assert("cache-only-names-are-undeclared", mapAll(s.active.m, func(nm string, cs *cachedSecret) bool {
+		declared := false
+		for _, d := range names {
+			declared = or(declared, d == nm)
+		}
+		if cs == nil {
+			return false
+		}
+		return cs.Declared == declared
+	}))
 	if doc != nil && verifDocValid(doc) {
 		all := true
 		for _, nm := range names {
